@@ -889,6 +889,7 @@ failure followed by a success; distinct by line".into();
     run.extra.insert("model_instance_reset_variant".into(), serde_json::json!(impl_reset_variant()));
     let mut cur_world: Option<(usize, Result<World, String>)> = None;
     let mut specials: Vec<Option<Result<Special, String>>> = vec![None, None, None, None];
+    let mut hpipe: Option<HPipeCtx> = None;
     for idx in 0..n {
         if !run.wants(idx) { continue; }
         let mut rng = Rng::for_case(run.opts.seed, idx);
@@ -909,6 +910,13 @@ failure followed by a success; distinct by line".into();
             let desc = sp.desc.clone();
             arm(idx);
             exec(run, idx, &c, mode0, &ops, &desc);
+            disarm();
+            continue;
+        }
+        if idx >= DIRECTED && idx % 10 == 3 {
+            if hpipe.is_none() { hpipe = Some(hpipe_ctx()); }
+            arm(idx);
+            hpipe_case(run, idx, &mut rng, hpipe.as_ref().unwrap());
             disarm();
             continue;
         }
@@ -940,4 +948,209 @@ failure followed by a success; distinct by line".into();
         exec(run, idx, &c, rng.below(3), &ops, &desc);
         disarm();
     }
+}
+
+// ------------------------------------------------------------------------------------------------
+// op `hpipe`: the CONCRETE pipeline under recycling (Model/RecycleTotal.lean)
+//
+// World = a C03 `pipe` world (C13 char.def / unk.def / provider stack / lexicon, C07 input-text plugin stack, random matrix,
+// A/B split declarations; the same tokens as a `C03 pipe` line).  History = 3..6 texts with a mode each, analysed by ONE real
+// tokenizer and collected into ONE result list.  The driver replays the history on `Recycle.World` with the payload
+// `RecycleTotal.payload` (the phases of `Total.tokenize`) and answers the morphemes (node ranges) the list shows after every
+// analysis; `sim=1` says that every analysis also equals `Total.tokenize` on a new tokenizer (`RecycleTotal.bridgeHolds`).
+// Oracle: every analysis equals the analysis of a newly created tokenizer + list.
+
+pub struct HPipeCtx { c13: crate::c13::Ctx }
+
+pub fn hpipe_ctx() -> HPipeCtx {
+    let wd = Workdir::new_legacy("c10-hpipe");
+    let system = build_system(csv_of(&crate::c13::fixed_rows(), &default_pos()).as_bytes(), Matrix::random(&mut Rng::new(77), crate::c13::N_IDS, crate::c13::N_IDS, false).text().as_bytes()).expect("system dictionary");
+    wd.write("unk.def", "");
+    wd.write("char.def", "DEFAULT 0 1 0\n");
+    let poslist_hex = {
+        let dic = load(&config_json(&wd, &[], &[simple_oov_json(0, 0, 0)], &[], &[]), system.clone(), vec![]).expect("baseline dictionary");
+        let s: String = dic.grammar().pos_list.iter().map(|p| format!("{}\n", p.join(","))).collect();
+        hex(s.as_bytes())
+    };
+    HPipeCtx { c13: crate::c13::Ctx { wd, system, poslist_hex } }
+}
+
+/// A/B split declarations on some multi-character rows (well-formed ones: ill-formed declarations are C03/C09's subject)
+fn hpipe_splits(rng: &mut Rng, lex: &mut Vec<Row>, pool: &[char]) -> Vec<String> {
+    for _ in 0..rng.range(1, 2) {
+        let nparts = rng.range(2, 3);
+        let parts: Vec<String> = (0..nparts).map(|_| if lex.len() > POS.len() && rng.chance(1, 2) { lex[rng.range(POS.len(), lex.len() - 1)].surface.clone() } else { rand_word(rng, pool, 2) }).collect();
+        let surface: String = parts.concat();
+        if surface.chars().count() > 6 || lex.iter().any(|r| r.surface == surface) { continue; }
+        lex.push(Row::simple(&surface, crate::c13::small_id(rng) as i32, crate::c13::small_id(rng) as i32, rng.below(400) as i32 - 450, rng.below(POS.len())));
+    }
+    let n0 = lex.len();
+    let mut with_split: Vec<String> = vec![];
+    let cands: Vec<usize> = (0..n0).rev().filter(|&i| lex[i].surface.chars().count() >= 2 && !lex[i].surface.starts_with('ん')).collect();
+    for &i in cands.iter().take(4) {
+        if rng.chance(1, 4) { continue; }
+        let cs: Vec<char> = lex[i].surface.chars().collect();
+        let cut = rng.range(1, cs.len() - 1);
+        let parts: Vec<String> = vec![cs[..cut].iter().collect(), cs[cut..].iter().collect()];
+        let mut ids = vec![];
+        for p in &parts {
+            let id = match lex.iter().position(|r| &r.surface == p) {
+                Some(k) => k,
+                None => { lex.push(Row::simple(p, crate::c13::small_id(rng) as i32, crate::c13::small_id(rng) as i32, rng.below(9000) as i32 - 500, rng.below(POS.len()))); lex.len() - 1 }
+            };
+            ids.push(id);
+        }
+        let decl = join(ids.iter(), "/");
+        lex[i].mode = 'C';
+        if rng.chance(2, 3) { lex[i].cost = rng.below(400) as i32 - 450; }
+        with_split.push(lex[i].surface.clone());
+        match rng.below(3) {
+            0 => { lex[i].split_a = decl; }
+            1 => { lex[i].split_b = decl; }
+            _ => { lex[i].split_a = decl.clone(); lex[i].split_b = decl; }
+        }
+    }
+    for i in 0..lex.len() {
+        if let Some(k) = (0..i).find(|&k| lex[k].surface == lex[i].surface && lex[k].left == lex[i].left && lex[k].right == lex[i].right && lex[k].cost == lex[i].cost) {
+            let (a, b, m) = (lex[k].split_a.clone(), lex[k].split_b.clone(), lex[k].mode);
+            lex[i].split_a = a; lex[i].split_b = b; lex[i].mode = m;
+        }
+    }
+    with_split
+}
+
+fn hpipe_unit_lens(lex: &[Row], decl: &str) -> String {
+    if decl == "*" { return "-".into(); }
+    join(decl.split('/').map(|x| lex[x.parse::<usize>().unwrap()].surface.len()), "+")
+}
+
+fn hpipe_split_variant() -> &'static str {
+    let p = format!("{}/src/analysis/node.rs", crate::c07::repo_sudachi_dir());
+    if std::fs::read_to_string(p).map(|s| s.contains(".min(self.byte_end as usize)")).unwrap_or(false) { "d6fix" } else { "cur" }
+}
+
+/// one analysis on the given tokenizer + list: `ok:<bc:ec:bb:eb,…>` | `err:<kind>` | `PANIC`
+fn hpipe_analyse(tok: &mut StatefulTokenizer<std::sync::Arc<JapaneseDictionary>>, ml: &mut MorphemeList<std::sync::Arc<JapaneseDictionary>>, mode: Mode, text: &str) -> String {
+    let r = catch(|| {
+        tok.set_mode(mode);
+        tok.reset().push_str(text);
+        match tok.do_tokenize() {
+            Err(e) => { let c = err_class(&e); format!("err:{}", if c.starts_with("Other") { "Other".to_string() } else { c }) }
+            Ok(()) => match ml.collect_results(tok) {
+                Err(_) => "collect:err:Other".to_string(),
+                Ok(()) => {
+                    let mut v = vec![];
+                    for i in 0..ml.len() { let n = ml.get(i).verif_node_range(); v.push(format!("{}:{}:{}:{}", n.0, n.1, n.2, n.3)); }
+                    format!("ok:{}", v.join(","))
+                }
+            },
+        }
+    });
+    match r { Ok(s) => s, Err(_) => "PANIC".to_string() }
+}
+
+pub fn hpipe_case(run: &mut Run, idx: usize, rng: &mut Rng, pc: &HPipeCtx) {
+    use crate::c13::Prov;
+    let with_input = rng.chance(1, 2);
+    let d = crate::c13::gen_defs(rng, with_input, false);
+    let mut lc = crate::c13::gen_lat(rng, &d);
+    let split_words = hpipe_splits(rng, &mut lc.lex, &d.pool);
+    let mut c7 = crate::c07::gen_cfg(rng, None);
+    if !with_input { c7.pipe.clear(); }
+    let extreme_m = rng.chance(1, 4);
+    let matrix = Matrix::random(rng, crate::c13::N_IDS, crate::c13::N_IDS, extreme_m);
+    let mut extra: Vec<char> = crate::c13::NORMALISED.to_vec();
+    if with_input {
+        extra.extend(c7.pool.iter().take(4));
+        extra.extend(c7.marks.iter().take(2));
+        extra.extend(c7.yl.iter().take(1));
+        extra.extend(c7.yr.iter().take(1));
+        extra.extend(['ー', '漢', 'か']);
+    }
+    // the history: a longer text early, shorter ones later, an empty one, words with split declarations
+    let k = rng.range(3, 6);
+    let mut texts: Vec<(usize, String)> = vec![];
+    for j in 0..k {
+        let mut t = crate::c13::gen_text(rng, &d.pool, &extra);
+        if j == 0 || rng.chance(1, 3) { t.push_str(&crate::c13::gen_text(rng, &d.pool, &extra)); for r in lc.lex.iter().rev().take(2) { t.push_str(&r.surface); } }
+        if !split_words.is_empty() && rng.chance(2, 3) {
+            let wds = rng.pick(&split_words).clone();
+            let cs: Vec<char> = t.chars().collect();
+            let at = rng.below(cs.len() + 1);
+            t = cs[..at].iter().collect::<String>() + &wds + &cs[at..].iter().collect::<String>();
+        }
+        if j > 0 && rng.chance(1, 4) { let n = t.chars().count(); t = t.chars().take(rng.below(n + 1).min(3)).collect(); }
+        if t.chars().count() > 40 { t = t.chars().take(40).collect(); }
+        if rng.chance(1, 12) { t.clear(); }
+        texts.push((rng.below(3), t));
+    }
+    let mode0 = rng.below(3);
+    let wd = &pc.c13.wd;
+    wd.write("char.def", &d.char_def);
+    wd.write("unk.def", &d.unk_def);
+    wd.write("rw.def", &c7.def_text);
+    let oov: Vec<String> = lc.provs.iter().map(|p| match p { Prov::M => crate::c13::mecab_json(), Prov::S => crate::c13::simple_json(&lc.sp), Prov::R => crate::c13::regex_json(&lc.rp) }).collect();
+    let mut input: Vec<String> = c7.pipe.iter().map(|&p| crate::c07::plugin_json(&c7, p)).collect();
+    let kinds: Vec<&str> = lc.provs.iter().map(|p| match p { Prov::M => "m", Prov::S => "s", Prov::R => "r" }).collect();
+    let mut ptoks = vec![];
+    for (kd, p) in [("m", Prov::M), ("s", Prov::S), ("r", Prov::R)] {
+        if kinds.contains(&kd) { ptoks.push(crate::c13::prov_tokens(&p, &d, &lc.sp, &lc.rp, &pc.c13)); }
+    }
+    let lex_tok = join(lc.lex.iter().map(|r| format!("{}:{}:{}:{}", join(r.surface.chars().map(|c| c as u32), "."), r.left, r.right, r.cost)), ";");
+    let lexu_tok = join(lc.lex.iter().map(|r| format!("{}/{}", hpipe_unit_lens(&lc.lex, &r.split_a), hpipe_unit_lens(&lc.lex, &r.split_b))), ";");
+    let mut cells = vec![];
+    for b in 0..matrix.nr { for a in 0..matrix.nl { cells.push(matrix.cost(a, b) as i64); } }
+    let system = match build_system(csv_of(&lc.lex, &default_pos()).as_bytes(), matrix.text().as_bytes()) {
+        Ok(s) => s,
+        Err(e) => { run.bump(&format!("hpipe:build-error:{}", e.chars().take(40).collect::<String>())); return; }
+    };
+    let mut loaded = load(&config_json(wd, &input, &oov, &[], &[]), system.clone(), vec![]);
+    if let Err(e) = &loaded {
+        if c7.pipe.contains(&'Y') && e.contains("IgnoreYomiganaPlugin") {
+            c7.pipe.retain(|&p| p != 'Y');
+            input = c7.pipe.iter().map(|&p| crate::c07::plugin_json(&c7, p)).collect();
+            loaded = load(&config_json(wd, &input, &oov, &[], &[]), system, vec![]);
+        }
+    }
+    let dic: std::sync::Arc<JapaneseDictionary> = match loaded {
+        Ok(x) => std::sync::Arc::new(x),
+        Err(_) => { run.bump("hpipe:setup-error"); return; }
+    };
+    let uni = {
+        let cl = crate::c07::Classes { dic: &dic };
+        let mut chars: std::collections::BTreeSet<char> = crate::c07::cfg_chars(&c7);
+        for (_, t) in &texts { chars.extend(t.chars()); }
+        crate::c07::facts_for(&chars, &cl)
+    };
+    let world = format!(
+        "mode=C cdef={} variant={}{} provs={} {} lex={} lexu={} conn={}:{}:{} {} uni={} split={} commit={}",
+        hex(d.char_def.as_bytes()), if crate::c13::source_is_forward() { "fwd" } else { "bwd" }, if crate::c13::source_chains_bow_ban() { " bow=fix" } else { "" },
+        kinds.join("."), ptoks.join(" "), lex_tok, lexu_tok, matrix.nl, matrix.nr, join(cells.iter(), ","),
+        crate::c07::setup_payload(&c7, crate::c07::impl_earliest()).replace(" def=", " rwdef="), uni, hpipe_split_variant(), crate::c03::commit_variant());
+    let texts_tok = join(texts.iter().map(|(m, t)| format!("{}:{}", m, if t.is_empty() { "-".to_string() } else { hex(t.as_bytes()) })), ";");
+    let payload = format!("mode0={} texts={} reset_variant={} {}", mode0, texts_tok, impl_reset_variant(), world);
+    // ---- the real history
+    let mut tok = StatefulTokenizer::new(dic.clone(), mode_of(mode0));
+    let mut ml = MorphemeList::empty(dic.clone());
+    let mut answers = vec![];
+    let mut longer_then_shorter = false;
+    let mut prev_len = 0usize;
+    for (j, (m, t)) in texts.iter().enumerate() {
+        let a = hpipe_analyse(&mut tok, &mut ml, mode_of(*m), t);
+        // oracle: a newly created tokenizer and list
+        let mut ftok = StatefulTokenizer::new(dic.clone(), mode_of(*m));
+        let mut fml = MorphemeList::empty(dic.clone());
+        let f = hpipe_analyse(&mut ftok, &mut fml, mode_of(*m), t);
+        if a != f {
+            run.fail_with_line(idx, &format!("C10 hpipe idx={} {}", idx, payload), "c10:hpipe:history", &format!("analysis {} of the history ({} bytes, mode {}) on the recycled tokenizer+list gives {} but a new tokenizer gives {}", j, t.len(), m, a.chars().take(200).collect::<String>(), f.chars().take(200).collect::<String>()));
+        }
+        if j > 0 && t.len() < prev_len { longer_then_shorter = true; }
+        prev_len = t.len();
+        run.bump(&format!("hpipe:{}", a.split(':').next().unwrap_or("?")));
+        answers.push(a);
+    }
+    run.bump(&format!("hpipe:providers:{}", kinds.join(".")));
+    run.bump(&format!("hpipe:input:{}", c7.pipe.iter().collect::<String>()));
+    let ans = format!("ok {} sim=1", answers.join("|"));
+    run.case(idx, "hpipe", &payload, &ans, longer_then_shorter);
 }
